@@ -122,3 +122,51 @@ Example C13_bytes_example :
   array_intersection_w (enc (VNum (NInt 1))) (enc c13_a) [] = Ok (enc (VArr [VNum (NInt 1)])) /\
   array_except_w (enc (VObj [([107], VBool true)])) (enc c13_b) [] = Ok (enc (VArr [VObj [([107], VBool true)]])).
 Proof. vm_compute. repeat split; reflexivity. Qed.
+
+(* ---- the sharpened statement (SetSize.v): NO size hypothesis on the result.  The theorems above keep
+   `wf_size (result) = true` for a first argument that is not an array (the result is then the one-element array built
+   around the document, 8 bytes larger).  That condition is genuinely false near the limit -- exactly when the
+   document's payload is >= 2^28 - 8 bytes (C13_result_size_boundary, C13_size_hypothesis_was_restrictive) -- but the
+   theorem does not need it: the builder copies the children's entry words and never writes the (possibly unfaithful)
+   size of the whole array at top level (BuilderFrame: build_into on arbitrary entries).  For every pair of well-formed
+   documents, in every combination of argument forms, the four functions return the tree answers. *)
+From JB Require Import CodecProofs SetSize.
+Theorem C13_set_functions_bytes_no_size_hypothesis : forall t u a b buf,
+  wfb a = true -> wfb b = true -> stands_for t a -> stands_for u b ->
+  array_distinct_w t buf = Ok (buf ++ enc (array_distinct_t a)) /\
+  array_intersection_w t u buf = Ok (buf ++ enc (array_intersection_t a b)) /\
+  array_except_w t u buf = Ok (buf ++ enc (array_except_t a b)) /\
+  array_overlap_w t u = Ok (array_overlap_t a b).
+Proof. exact set_functions_forms_any. Qed.
+Print Assumptions C13_set_functions_bytes_no_size_hypothesis.
+
+Theorem C13_set_functions_bytes_enc_no_size_hypothesis : forall a b buf, wfb a = true -> top_ok a -> wfb b = true -> top_ok b ->
+  array_distinct_w (enc a) buf = Ok (buf ++ enc (array_distinct_t a)) /\
+  array_intersection_w (enc a) (enc b) buf = Ok (buf ++ enc (array_intersection_t a b)) /\
+  array_except_w (enc a) (enc b) buf = Ok (buf ++ enc (array_except_t a b)) /\
+  array_overlap_w (enc a) (enc b) = Ok (array_overlap_t a b).
+Proof. exact set_functions_enc_any. Qed.
+Print Assumptions C13_set_functions_bytes_enc_no_size_hypothesis.
+
+(* the exact boundary of the old hypothesis: the result of distinct has faithful size fields (could itself be nested as
+   an element) iff the argument is an array or its payload is below 2^28 - 8 = 268435448 bytes *)
+Theorem C13_result_size_boundary : forall a, wfb a = true ->
+  wf_size (array_distinct_t a) = match a with VArr _ => true | _ => lenN (payload a) <? 268435448 end.
+Proof. exact distinct_result_size. Qed.
+Print Assumptions C13_result_size_boundary.
+
+(* ... and it is attained: a valid document (the string of 2^28 - 8 letters `a`) for which the old hypothesis fails
+   while the walker still returns the encoding of the tree answer *)
+Theorem C13_size_hypothesis_was_restrictive :
+  exists a, wfb a = true /\ top_ok a /\ wf_size (array_distinct_t a) = false /\
+            (forall buf, array_distinct_w (enc a) buf = Ok (buf ++ enc (array_distinct_t a))).
+Proof. exact size_hypothesis_was_restrictive. Qed.
+Print Assumptions C13_size_hypothesis_was_restrictive.
+
+(* not vacuous, small instances through the new theorem's path: scalar and object first arguments, JSON-text form *)
+Example C13_no_size_hypothesis_example :
+  array_distinct_w (enc (VStr [104; 105])) [7] = Ok (7 :: enc (VArr [VStr [104; 105]])) /\
+  array_intersection_w (enc (VObj [([107], VBool true)])) (enc c13_a) [7] = Ok (7 :: enc (VArr [VObj [([107], VBool true)]])) /\
+  array_except_w [49] (enc c13_b) [] = Ok (enc (VArr [])) /\
+  array_except_w [34; 122; 34] (enc c13_b) [] = Ok (enc (VArr [VStr [122]])).
+Proof. vm_compute. repeat split; reflexivity. Qed.
